@@ -34,7 +34,7 @@ def parse(out):
 
 def main(chk, pid, tier, seed, replay):
     t0 = time.time()
-    cases = 8 if tier == "quick" else 64
+    cases = 400 if tier == "quick" else 4000
     profiles = ["dev"] if tier == "quick" else ["dev", "release"]
     cfgs = configs()
     if replay:
